@@ -363,6 +363,7 @@ pub fn kvs_held_cursor(seed: u64, worker: usize, slot: &Slot) {
     };
     // phase 2: keep writing so that rollovers, flushes and compactions happen under the cursor
     let mut uses = 0;
+    let mut hit_open_files_limit = false;
     for round in 0..rng.range(2, 5) {
         for _ in 0..rng.range(1, 4) {
             id += 1;
@@ -412,6 +413,12 @@ pub fn kvs_held_cursor(seed: u64, worker: usize, slot: &Slot) {
         };
         uses += 1;
         match got {
+            Err(e) if e.contains("too-many-open-files") => {
+                // the configured max_open_files was reached: an explicit resource-limit error,
+                // counted, not judged (same rule as seqsim)
+                hit_open_files_limit = true;
+                break;
+            }
             Err(e) => violation(
                 &format!("held-cursor-error:{}", crate::panic_class(&e.chars().take(90).collect::<String>())),
                 format!("round {round}: {e}"),
@@ -445,6 +452,7 @@ pub fn kvs_held_cursor(seed: u64, worker: usize, slot: &Slot) {
     *r.probes.entry("cursor_background_work_units_under_cursor".into()).or_insert(0) += work;
     *r.probes.entry("cursor_executions_with_second_writer".into()).or_insert(0) += second_writer as u64;
     *r.probes.entry("cursor_verifier_passes_under_cursor".into()).or_insert(0) += verifier_passes.load(Ordering::SeqCst);
+    *r.probes.entry("cursor_use_ended_at_max_open_files_limit".into()).or_insert(0) += hit_open_files_limit as u64;
     r.sample = Some(serde_json::json!({"tight_files": tight, "second_writer": second_writer, "reference_len": reference.len(), "background_work": work}));
     drop(r);
     drop(kvs);
